@@ -92,6 +92,13 @@ Theorem C17_shrink_value_safe : forall jk s extra,
 Proof. exact c17_shrink_value_safe. Qed.
 Print Assumptions C17_shrink_value_safe.
 
+(* after ShrinkToFit() the storage mode is the one the length calls for *)
+Theorem C17_shrink_mode : forall jk s, inv M s -> slen M s + 1 < 2147483648 ->
+  let s' := snd (shrink_to_fit M TH PG OV jk true s 0) in
+  (slen M s <= M -> is_long s' = false) /\ (M < slen M s -> is_long s' = true /\ cap M s' = slen M s + 1).
+Proof. exact c17_shrink_mode. Qed.
+Print Assumptions C17_shrink_mode.
+
 (* the pinned tree violated the statement (findings F27, F28, F31); witnesses replayed on the real code *)
 Theorem C17_pinned_prealloc_refuted :
   exists s n, abs pM s = [97; 98; 99] /\
